@@ -108,10 +108,14 @@ func itemSx(it sItem) Sx {
 	case "presence":
 		return L(Z(8))
 	case "enabled":
-		r := map[string]int{"true": 0, "false": 1, "": 2}
-		rv, ok := r[it.Res]
-		if !ok {
-			rv = 3
+		// the client reads the attribute with strconv.ParseBool: "1", "t", "TRUE"... grant resumption too
+		rv := 3
+		if b, err := strconv.ParseBool(it.Res); err == nil && b {
+			rv = 0
+		} else if err == nil {
+			rv = 1
+		} else if it.Res == "" {
+			rv = 2
 		}
 		return L(Z(9), SBytes(it.ID), Zi(rv))
 	case "resumed":
